@@ -35,6 +35,10 @@ def vr(v):
     return repr(v)
 
 
+LENGTH = [lambda piece: float(len(piece.indices))]
+LENGTHS = {'number of observations': lambda piece: float(len(piece.indices)), 'NaN (a missing coordinate)': lambda piece: float('nan'), 'zero (all fixes at one place)': lambda piece: 0.0}
+
+
 def _track_model(ctx, fn):
     """abstract track for segmentation()/split(): named feature columns, inclusive extract() recording the index interval;
     any other Track method is interpreted from the repository's own source with this object as self"""
@@ -54,7 +58,8 @@ def _track_model(ctx, fn):
             self.uid = u
 
         def length(self):
-            return float(len(self.indices))
+            # with limit = 0 no piece is filtered by its length: the answer must not depend on what length() returns
+            return LENGTH[0](self)
 
         def size(self):
             return len(self.indices)
@@ -176,6 +181,22 @@ def rule_M(ctx):
                 if (got is None or got[0] != want or got[1] != 0) and len(bad) < 6:
                     bad.append({'mode': mname, 'values held as': kname, 'feature values vs their thresholds (observation 0)': list(combo), 'thresholds': thresholds,
                                 'markers (observation 0, all-below observation 1)': got, 'expected': [want, 0]})
+    # the same feature listed twice with two thresholds: each occurrence is compared with ITS threshold (the pairing is by position)
+    for mname, mval in consts.items():
+        for thr_, vals in (([10.0, 20.0], [5.0, 15.0, 25.0]), ([20.0, 10.0], [5.0, 15.0, 25.0]), ([10.0, 20.0, 30.0], [5.0, 15.0, 25.0, 35.0])):
+            t = TrackS(len(vals), {'f0': list(vals)})
+            try:
+                orders.make_func(f.node, fn)(**{tr: t, afs: ['f0'] * len(thr_), afo: 'OUT', thr: list(thr_), mode: mval})
+            except orders.Unsupported as e:
+                raise shape_error('segmentation() not interpretable: %s' % e, f.loc())
+            except (IndexError, KeyError, TypeError) as e:
+                bad.append({'mode': mname, 'exception': '%s: %s' % (type(e).__name__, e)})
+                continue
+            total += 1
+            want = [(1 if any(v > h for h in thr_) else 0) if mname.endswith('AND') else (1 if all(v > h for h in thr_) else 0) for v in vals]
+            if t.feats.get('OUT') != want and len(bad) < 6:
+                bad.append({'mode': mname, 'tested features': ['f0'] * len(thr_), 'thresholds': thr_, 'values of f0': vals, 'markers': t.feats.get('OUT'), 'expected': want,
+                            'why': 'a feature listed several times is compared with the threshold at the same position each time'})
     # a second segmentation of the same track into the same marker name (other thresholds): the markers are those of the second run
     for mname, mval in consts.items():
         t = TrackS(3, {'f0': [15.0, 5.0, 25.0]})
@@ -212,7 +233,10 @@ def rule_T(ctx):
     fn['TrackCollection'] = lambda *a_: Coll()
     bad_t = bad_e = None
     total = 0
-    for n in range(1, 10 if ctx.tier == 'thorough' else 6):
+    for (lname, lfun), n in itertools.product(LENGTHS.items(), range(1, 10 if ctx.tier == 'thorough' else 6)):
+        if lname != 'number of observations' and n > 4:
+            continue
+        LENGTH[0] = lfun
         for marks in itertools.product((0, 1), repeat=n):
             t = TrackS(n, {'m': list(marks)})
             try:
@@ -223,7 +247,7 @@ def rule_T(ctx):
                 res = '%s: %s' % (type(e).__name__, e)
             total += 1
             pieces = [p_.indices for p_ in res.pieces] if isinstance(res, Coll) and all(isinstance(p_, Piece) for p_ in res.pieces) else None
-            case = {'marker': list(marks), 'pieces (observation indices)': pieces if pieces is not None else repr(res)}
+            case = {'marker': list(marks), 'length of every piece': lname, 'pieces (observation indices)': pieces if pieces is not None else repr(res)}
             if not any(marks):
                 if pieces != [] and bad_e is None:
                     bad_e = dict(case, expected='no piece (nothing is marked)')
@@ -235,6 +259,7 @@ def rule_T(ctx):
                 nonempty = [p_ for p_ in pieces if p_]
                 if any(marks[p_[-1]] != 1 for p_ in nonempty[:-1]) or any(any(marks[k] for k in p_[:-1]) for p_ in nonempty):
                     bad_e = dict(case, why='each piece ends at a marked observation (except possibly the last) and contains no other marked observation')
+    LENGTH[0] = LENGTHS['number of observations']
     ctx.check(bad_t is None, 'C11.T', f, 'for every marker vector with a marked observation the pieces tile the track: every observation exactly once, in order (%d vectors, lengths 1..5)' % total,
               witness=bad_t, node=f.node, key='tiling')
     ctx.check(bad_e is None, 'C11.E', f, 'each piece ends at a marked observation, holds no other marked one, and nothing is emitted when nothing is marked',
